@@ -294,7 +294,39 @@ func trimStack(st string) string {
 
 // one evaluates one case with bookkeeping and returns the failure (nil if the
 // property held or the failure is a listed open known finding).
+var inflightFile *os.File
+
+// journal records the case about to run so that the driver can name it if the
+// process dies or hangs.
+func journal(c interface{}) {
+	if inflightFile == nil {
+		path := os.Getenv("VERIF_INFLIGHT")
+		if path == "" {
+			return
+		}
+		f, err := os.Create(path)
+		if err != nil {
+			return
+		}
+		inflightFile = f
+	}
+	b, err := json.Marshal(c)
+	if err != nil {
+		return
+	}
+	inflightFile.Truncate(0)
+	inflightFile.WriteAt(b, 0)
+}
+
+func journalDone() {
+	if inflightFile != nil {
+		inflightFile.Truncate(0)
+	}
+}
+
 func (r *runner[C]) one(c C, count bool) *Failure {
+	journal(c)
+	defer journalDone()
 	cx := r.cx
 	cx.nontrivial, cx.classes, cx.sample = false, cx.classes[:0], nil
 	f := r.safeCheck(c)
